@@ -430,11 +430,18 @@ def gen_filter(rng, desc):
     """CLI arguments of a result filter whose meaning the oracle can evaluate by itself: status flags, --enabled /
     --disabled, --path with the literal dotted path of a test or of a suite (no wildcard character in it)"""
     tests = desc_tests_hier(desc)
-    kind = rng.choice(["none", "status", "status", "status", "enabled", "disabled", "path-test", "path-test", "path-suite", "path-suite",
-                       "path+status", "path+status"])
+    kinds = ["none", "status", "status", "status", "enabled", "disabled", "path-test", "path-test", "path-suite", "path-suite",
+             "path+status", "path+status"]
+    if any(t["res"]["status"] is None for _, _, t in tests):
+        kinds += ["enabled", "path-suite", "path-suite", "path-test", "none"]      # filters that can keep an in-progress test
+    kind = rng.choice(kinds)
     args = []
     if kind in ("status", "path+status"):
-        args += rng.sample(sorted(STATUS_FLAGS), rng.choice([1, 1, 2]))
+        present = {t["res"]["status"] for _, _, t in tests}
+        flags = sorted(STATUS_FLAGS)
+        if rng.random() < 0.8:
+            flags = [f for f in flags if present & set(STATUS_FLAGS[f])] or flags
+        args += rng.sample(flags, min(len(flags), rng.choice([1, 1, 2])))
     if kind in ("enabled", "disabled"):
         args.append("--" + kind)
     if kind.startswith("path"):
@@ -503,7 +510,9 @@ def parse_short(text):
 def run_captured(fn):
     buf = io.StringIO()
     try:
-        with contextlib.redirect_stdout(buf):
+        # stderr too: every `cli.main` call runs colorama.init(), which wraps whatever sys.stdout / sys.stderr are at that
+        # moment — left in place, the wrappers would nest a little deeper at every call (RecursionError after ~700 calls)
+        with contextlib.redirect_stdout(buf), contextlib.redirect_stderr(io.StringIO()):
             ret = fn()
     except (TypeError, IndexError) as e:
         return {"err": type(e).__name__}
@@ -534,6 +543,16 @@ class ShortStream(C.Stream):
         odd = rng.random() < 0.25
         rep = R.strip_private(R.gen_report(rng, rng.choice(["safe", "plain", "plain"]), odd=odd, none_times=0.01 if odd else 0,
                                            unfinished=0.45, max_depth=3))
+        # a snapshot of a run in progress: some test (any position: several worker threads) has not ended yet
+        if rng.random() < 0.4:
+            running = [t for _, _, t in desc_tests_hier(rep) if t["res"]["status"] in ("passed", "failed")]
+            for t in rng.sample(running, min(len(running), rng.choice([1, 1, 2]))):
+                t["res"]["end"] = None
+                t["res"]["status"] = None
+                if t["res"]["steps"] and rng.random() < 0.7:
+                    t["res"]["steps"][-1]["end"] = None
+            if running:
+                rep["end"] = None
         return {"report": rep, "args": gen_filter(rng, rep)}
 
     def impl(self, case):
@@ -707,7 +726,18 @@ def _short_case(nb_threads, args):
                        "teardown": None, "suites": [shop, account]}, "args": args}
 
 
+def _short_min(args):
+    """minimised failing input of seeded/C20-6: a parallelized run saved while one of its two tests is in progress"""
+    c = _short_case(2, args)
+    shop = c["report"]["suites"][0]
+    shop["tests"] = [shop["tests"][0], shop["tests"][2]]
+    c["report"]["suites"] = [shop]
+    return c
+
+
 ShortStream.corpus = [
+    _short_min(["--path", "shop"]),
+    _short_min([]),
     _short_case(2, ["--path", "shop"]),            # parallelized: the in-progress test is displayed and must be counted (seeded/C20-6)
     _short_case(2, ["--enabled"]),
     _short_case(1, ["--path", "shop"]),            # sequential: D32, from_suites raises on the in-progress last result
